@@ -524,7 +524,13 @@ class C20(common.Prop):
         nk = rng.randint(0 if depth > 0 else 1, 3)
         keys = rng.sample([[97], [98], [100, 97, 116, 97], [109], [233, 120]], nk)
         cols = [self.gen_field(rng, B, depth) for _ in keys]
-        return [{"k": "D", "items": [[list(k), cols[j][i]] for j, k in enumerate(keys)]} for i in range(B)]
+        out = [{"k": "D", "items": [[list(k), cols[j][i]] for j, k in enumerate(keys)]} for i in range(B)]
+        if B > 1 and nk > 1 and rng.random() < 0.35:
+            # same keys, another insertion order in some later example: fields are gathered by KEY
+            for ex in out[1:]:
+                if rng.random() < 0.6:
+                    rng.shuffle(ex["items"])
+        return out
 
     def gen_structured(self, rng):
         B = rng.choice([1, 2, 2, 3, 3, 4, 5])
